@@ -1076,6 +1076,7 @@ class SCFGIO:
 
         scfg_graph = {}
         seen = set()
+        parent_region_name: Optional[str] = None
         # The queue must be a sorted FIFO to maintain reproducible insertion
         # order for the SCFG.
         queue = deque(sorted(curr_heads))
@@ -1104,6 +1105,11 @@ class SCFGIO:
                     block_info["exiting"],
                 )
                 block_info.pop("contains")
+                # The parent region is recorded by name, the region block
+                # itself is set once the containing graph exists.
+                parent_region_name = block_info.pop(
+                    "parent_region", parent_region_name
+                )
 
             block_class = block_type_names[block_type]
             block = block_class(
@@ -1112,12 +1118,27 @@ class SCFGIO:
                 _jump_targets=block_edges,
                 **block_info,
             )
+            if isinstance(block, RegionBlock):
+                # The subgraph represents this region and this region is the
+                # parent of all regions that it contains.
+                assert block.subregion is not None
+                object.__setattr__(block.subregion, "region", block)
+                for sub_block in block.subregion.graph.values():
+                    if isinstance(sub_block, RegionBlock):
+                        object.__setattr__(sub_block, "parent_region", block)
 
             scfg_graph[current_name] = block
             if current_name != exiting:
                 queue.extend(edges[current_name])
 
         scfg = SCFG(scfg_graph, name_gen=name_gen)
+        # The regions of this graph are contained in the region that this
+        # graph represents, it goes by the recorded name.
+        if parent_region_name is not None:
+            object.__setattr__(scfg.region, "name", parent_region_name)
+        for block in scfg_graph.values():
+            if isinstance(block, RegionBlock):
+                object.__setattr__(block, "parent_region", scfg.region)
         return scfg
 
     @staticmethod
